@@ -83,7 +83,7 @@ impl Src for ReplaySrc {
 /// and an entry of the module's `TABLE` (name, replay fn, expects_panic) for the replay driver.
 #[macro_export]
 macro_rules! harnesses {
-    ($( $(#[$meta:meta])* fn $name:ident($s:ident) $body:block )*) => {
+    ($( $(#[$($meta:tt)*])* fn $name:ident($s:ident) $body:block )*) => {
         pub mod bodies {
             use super::*;
             $( pub fn $name<S: $crate::Src>($s: &mut S) $body )*
@@ -91,13 +91,13 @@ macro_rules! harnesses {
         #[cfg(kani)]
         mod proofs {
             use super::*;
-            $( #[kani::proof] $(#[$meta])* fn $name() { let mut s = $crate::KaniSrc; super::bodies::$name(&mut s); } )*
+            $( #[kani::proof] $(#[$($meta)*])* fn $name() { let mut s = $crate::KaniSrc; super::bodies::$name(&mut s); } )*
         }
         pub const TABLE: &[(&str, fn(&mut $crate::ReplaySrc), bool)] = &[
-            $( (stringify!($name), bodies::$name::<$crate::ReplaySrc> as fn(&mut $crate::ReplaySrc), $crate::harnesses!(@panics $(#[$meta])*)) ),*
+            $( (stringify!($name), bodies::$name::<$crate::ReplaySrc> as fn(&mut $crate::ReplaySrc), $crate::harnesses!(@panics $(#[$($meta)*])*)) ),*
         ];
     };
     (@panics) => { false };
     (@panics #[kani::should_panic] $($rest:tt)*) => { true };
-    (@panics #[$other:meta] $($rest:tt)*) => { $crate::harnesses!(@panics $($rest)*) };
+    (@panics #[$($other:tt)*] $($rest:tt)*) => { $crate::harnesses!(@panics $($rest)*) };
 }
